@@ -1,10 +1,11 @@
 #!/bin/bash
 # tools/seedall.sh <dir with Cnn/ subdirs> [ids...] : confirm every seeded change and run its property's quick check
+V=${VERIF_HOME:-/verif}
 D=$1; shift
 IDS=${@:-$(ls $D)}
 for p in $IDS; do
   cmd=$(grep -m1 -o 'go test .*' $D/$p/demo.txt | sed 's/`//g; s/ *$//')
   dest=$(echo "$cmd" | grep -o '\./internal/[A-Za-z0-9_/]*' | head -1 | sed 's#^\./##; s#/$##')
   echo "##### $p  dest=$dest  cmd=$cmd"
-  /verif/tools/seedtest.sh $p /verif/$D/$p "$dest" "$cmd" quick 2>&1 | grep "^== demo\|^ok\|^FAIL\|VIOLATION\|obligations discharged\|does not apply" | cut -c1-230
+  $V/tools/seedtest.sh $p $V/$D/$p "$dest" "$cmd" quick 2>&1 | grep "^== demo\|^ok\|^FAIL\|VIOLATION\|obligations discharged\|does not apply" | cut -c1-230
 done
